@@ -449,7 +449,8 @@ func (r *runner) apply(o hop) bool {
 				return false
 			}
 		}
-		if r.restartLowersMinValid() {
+		// (fixed corpus histories may do it as long as no WAL checkpoint exists, as in h_c01)
+		if cps, _ := filepath.Glob(filepath.Join(r.d.Dir, "wal", "checkpoint.*")); (len(cps) > 0 || !r.fixed) && r.restartLowersMinValid() {
 			r.classes["stopped-restart-lowering-minvalidtime"]++
 			r.stopped = true
 			return false
@@ -780,6 +781,15 @@ func (r *runner) partialQuery(g *gen.Rand, del hop) hop {
 	return o
 }
 
+// nextBoundary: the smallest multiple of blockRange above t.
+func nextBoundary(t int64) int64 {
+	nb := (t/blockRange)*blockRange + blockRange
+	if t < 0 && t%blockRange != 0 {
+		nb = (t / blockRange) * blockRange
+	}
+	return nb
+}
+
 // genTx appends in order, above everything in the head; sometimes far enough to make the head
 // compactable, sometimes exactly on / next to the next block boundary.
 func (r *runner) genTx(g *gen.Rand) hop {
@@ -793,6 +803,7 @@ func (r *runner) genTx(g *gen.Rand) hop {
 	}
 	o := hop{Kind: opTx}
 	t := base
+	prev := base
 	k := 1 + g.Intn(3)
 	for i := 0; i < k; i++ {
 		switch g.Intn(6) {
@@ -817,6 +828,15 @@ func (r *runner) genTx(g *gen.Rand) hop {
 		default:
 			t += g.Range(1, 60)
 		}
+		// a sample exactly on every block boundary crossed (mostly): the head then starts exactly at
+		// the block's MaxTime after the next compaction, and a restart does not lower minValidTime
+		if nb := nextBoundary(prev); t > nb && g.Chance(3, 4) {
+			o.Reqs = append(o.Reqs, smp{S: g.Intn(r.n), T: nb, V: r.val()})
+			if nb2 := nb + blockRange; t > nb2 {
+				o.Reqs = append(o.Reqs, smp{S: g.Intn(r.n), T: nb2, V: r.val()})
+			}
+		}
+		prev = t
 		o.Reqs = append(o.Reqs, smp{S: g.Intn(r.n), T: t, V: r.val()})
 		if g.Chance(1, 3) && r.n > 1 { // the same timestamp in another series
 			s2 := (o.Reqs[len(o.Reqs)-1].S + 1 + g.Intn(r.n-1)) % r.n
@@ -889,7 +909,7 @@ func (r *runner) generate(g *gen.Rand) {
 		if !step(hop{Kind: opCompact}) {
 			return
 		}
-		if g.Chance(1, 3) && !r.restartLowersMinValid() {
+		if g.Chance(1, 3) && !r.restartLowersMinValid() && !r.oooBlock {
 			if !step(hop{Kind: opRestart}) {
 				return
 			}
@@ -902,9 +922,20 @@ func (r *runner) generate(g *gen.Rand) {
 	budget := 4 + g.Intn(7)
 	var lastDel hop
 	chunkNext := false
-	for budget > 0 && !r.stopped {
+	// scripted follow-ups of a Delete: the maintenance operations in every order
+	scripts := [][]int{{48, 72}, {72, 48}, {58, 72}, {48, 58, 72}, {58, 48, 72}, {72, 58}, {48, 72, 58}, {92, 48, 72}, {76, 58}, {48, 58}}
+	var queue []int
+	for (budget > 0 || len(queue) > 0) && !r.stopped {
 		budget--
 		x := g.Intn(100)
+		if len(queue) > 0 {
+			x = queue[0] - 1 // the last value of the op's band below
+			queue = queue[1:]
+		} else if r.deletes > 0 && lastDel.Kind == opDelete && g.Chance(1, 4) {
+			queue = append([]int{}, scripts[g.Intn(len(scripts))]...)
+			r.classes["scripted-follow-up"]++
+			continue
+		}
 		var o hop
 		switch {
 		case x < 34 || r.deletes == 0:
